@@ -1,5 +1,6 @@
 (* Model of the array builders (serde_arrow/src/internal/serialization/*_builder.rs and
-   utils/array_ext.rs) for the core kinds: Boolean, the eight integer types, Utf8/LargeUtf8,
+   utils/array_ext.rs) for the core kinds: Boolean, the eight integer types, Float32 / Float64 (same width), the integer
+   presentation of the temporal kinds, Utf8/LargeUtf8,
    List/LargeList and Struct, each nullable or not, nested to any depth.  One transition per
    serde value; the transient per-record state of the struct builder (seen flags) is threaded
    through the fold over the presented fields. *)
@@ -8,10 +9,21 @@ Local Open Scope nat_scope.
 
 Inductive Builder :=
 | BdBool (validity : option (list N)) (values : list N) (len : nat)
-| BdPrim (k : IntKind) (validity : option (list N)) (values : list Z)
+| BdPrim (k : PrimKind) (validity : option (list N)) (values : list Z)
 | BdUtf8 (k : BytesKind) (validity : option (list N)) (offsets : list Z) (data : list N)
 | BdList (k : ListKind) (validity : option (list N)) (offsets : list Z) (meta : Meta) (elems : Builder)
 | BdStruct (len : nat) (validity : option (list N)) (fields : list (Meta * Builder)).
+
+(* primitive columns inside the model: integers, Float32 / Float64 (bit patterns), and the integer
+   presentation of Date32 / Date64 / Time32 / Time64 / Timestamp / Duration (text is C14's) *)
+Definition prim_built (p : PrimKind) : bool :=
+  match p with
+  | PInt _ | PF32 | PF64 | PDate32 | PDate64 | PDuration _ => true
+  | PTime32 (Second | Millisecond) | PTime64 (Microsecond | Nanosecond) => true
+  | PTimestamp _ None => true
+  | PTimestamp _ (Some tz) => bytes_eqb tz (b "UTC")
+  | _ => false
+  end.
 
 Definition new_validity (nullable : bool) : option (list N) := if nullable then Some [] else None.
 Definition meta_of (f : Field) : Meta := {| m_name := fname' f; m_nullable := fnullable' f |}.
@@ -22,7 +34,7 @@ Fixpoint build (f : Field) : option Builder :=
   | mkField _ dt nullable =>
     match dt with
     | DBool => Some (BdBool (new_validity nullable) [] 0)
-    | DPrim (PInt k) => Some (BdPrim k (new_validity nullable) [])
+    | DPrim p => if prim_built p then Some (BdPrim p (new_validity nullable) []) else None
     | DBytes BUtf8 => Some (BdUtf8 BUtf8 (new_validity nullable) [0%Z] [])
     | DBytes BLargeUtf8 => Some (BdUtf8 BLargeUtf8 (new_validity nullable) [0%Z] [])
     | DList k cf =>
@@ -109,11 +121,25 @@ Fixpoint finish_record (fs : list (Meta * Builder)) (seen : list bool) : Outcome
   | _ :: _, [] => Panic PIndex
   end.
 
-Definition prim_value (k : IntKind) (v : Value) : Outcome Z :=
-  match v with
-  | VInt _ z => if in_int k z then Ok z else Err
-  | VBool x => Ok (if x then 1 else 0)%Z
-  | VChar c => if in_int k c then Ok c else Err
+Definition prim_value (p : PrimKind) (v : Value) : Outcome Z :=
+  match p with
+  | PInt k =>
+    match v with
+    | VInt _ z => if in_int k z then Ok z else Err
+    | VBool x => Ok (if x then 1 else 0)%Z
+    | VChar c => if in_int k c then Ok c else Err
+    | _ => Err
+    end
+  (* FloatBuilder: the same width is stored bit for bit (other widths and integers are cast: not modelled) *)
+  | PF32 => match v with VF32 x => if in_int U32 x then Ok x else Err | _ => Err end
+  | PF64 => match v with VF64 x => if in_int U64 x then Ok x else Err | _ => Err end
+  (* DateBuilder / TimeBuilder: serialize_i32 / serialize_i64 through try_from *)
+  | PDate32 | PTime32 _ => match v with VInt (I32 | I64) z => if in_int I32 z then Ok z else Err | _ => Err end
+  | PDate64 | PTime64 _ => match v with VInt (I32 | I64) z => if in_int I64 z then Ok z else Err | _ => Err end
+  (* TimestampBuilder: serialize_i64 *)
+  | PTimestamp _ _ => match v with VInt I64 z => if in_int I64 z then Ok z else Err | _ => Err end
+  (* DurationBuilder: every integer width through try_from *)
+  | PDuration _ => match v with VInt _ z => if in_int I64 z then Ok z else Err | _ => Err end
   | _ => Err
   end.
 
@@ -263,7 +289,7 @@ Definition some_bitmap (v : option (list N)) : option Bitmap :=
 Fixpoint into_array (b : Builder) : Arr :=
   match b with
   | BdBool v vals len => ABool len (some_bitmap v) {| bm_off := 0; bm_data := vals |}
-  | BdPrim k v vals => APrim (PInt k) (some_bitmap v) vals
+  | BdPrim k v vals => APrim k (some_bitmap v) vals
   | BdUtf8 k v offs data => ABytes k (some_bitmap v) offs data
   | BdList k v offs m e => AList k (some_bitmap v) offs m (into_array e)
   | BdStruct len v fs => AStruct len (some_bitmap v) (map (fun mb => (fst mb, into_array (snd mb))) fs)
